@@ -178,7 +178,7 @@ def run_property(prop, tier="quick", jobs=None, only=None, timeout_ms=None):
             results.append(_job(t))
     else:
         ctxm = mp.get_context("fork")
-        with ctxm.Pool(jobs) as pool:
+        with ctxm.Pool(jobs, maxtasksperchild=1) as pool:      # every case in a fresh process: its verdict and running time do not depend on what the worker ran before
             for r in pool.imap_unordered(_job, tasks, chunksize=1):
                 results.append(r)
         # a case that ran out of its wall budget WITHOUT any failed obligation gets one more run, each in a fresh process (the solver's
